@@ -392,3 +392,83 @@ Proof.
         replace (r - 2 + 1) with (r - 1) in A by lia. lia. }
       rewrite R2. apply (Fin (d :: e :: t) m). exact Z0.
 Qed.
+
+(* ---- assembling the passes ------------------------------------------------------------------- *)
+Lemma P1_forall : forall (P : Z -> Prop) fuel rest acc acc',
+  P SEP -> Forall P rest -> Forall P acc -> P1 fuel rest acc = Some acc' -> Forall P acc'.
+Proof.
+  intros P. induction fuel as [|f IH]; intros rest acc acc' Ps Hr Ha H; [discriminate|].
+  cbn [P1] in H. destruct rest as [|c rest']; [inversion H; subst; exact Ha|].
+  inversion Hr; subst. destruct (c =? SEP).
+  - apply (IH (drop_seps rest') _ acc' Ps) in H; [exact H| |].
+    + clear -H3. induction rest' as [|x l IHl]; [constructor|]. inversion H3; subst. cbn [drop_seps].
+      destruct (x =? SEP); [apply IHl; assumption|constructor; assumption].
+    + destruct (dotb acc); [destruct acc; [constructor|inversion Ha; assumption]|constructor; assumption].
+  - apply (IH rest' (c :: acc) acc' Ps H3) in H; [exact H|constructor; assumption].
+Qed.
+
+Lemma zix_normal_k : forall s k rel,
+  (k = 0 \/ k = 1) -> s <> [] -> s = root_acc k ++ rel -> has_root rel = false ->
+  Forall (fun c => c <> 0) s ->
+  (forall m, nodd (B (rev (emit (fields rel)) ++ root_acc k) m)) ->
+  zix_normal_opt s = Some (fin (rev (emit (fields rel)) ++ root_acc k)).
+Proof.
+  intros s k rel Hk Hne Hs Hrel Hnz Hnodd.
+  set (acc' := rev (emit (fields rel)) ++ root_acc k) in *.
+  assert (Hlen : length s = (Z.to_nat k + length rel)%nat).
+  { rewrite Hs, app_length. destruct Hk as [-> | ->]; reflexivity. }
+  (* state after root copy *)
+  assert (S1 : exists re rb, root_path_range s = Some (rb, re) /\ re = k /\ sz (re - rb) = k /\
+               copy_root (S (length s)) s k 0 0 (repeat 0 (length s + 2))
+               = Some (k, B (root_acc k) (length s + 2 - Z.to_nat k))).
+  { destruct Hk as [-> | ->].
+    - change (root_acc 0) with (@nil Z) in *. cbn [app] in Hs. subst rel.
+      exists 0, 0. unfold root_path_range.
+      destruct s as [|c s']; [congruence|]. cbn in Hrel. unfold is_sep, rd, get. cbn. rewrite Hrel.
+      repeat split.
+    - change (root_acc 1) with [SEP] in *. exists 1, 0. unfold root_path_range. subst s.
+      unfold is_sep, rd. change (get ([SEP] ++ rel) 0) with SEP. rewrite Z.eqb_refl.
+      cbn [root_dir_loop length app]. unfold is_sep, rd.
+      assert (G1 : get (SEP :: rel) 1 =? SEP = false).
+      { unfold get. cbn. destruct rel as [|c rel']; [reflexivity|exact Hrel]. }
+      rewrite G1. repeat split.
+      cbn [copy_root]. replace (0 <? 1) with true by reflexivity.
+      unfold is_sep, rd. change (get (SEP :: rel) 0) with SEP. rewrite Z.eqb_refl.
+      replace (0 + 1 <? 1) with false by reflexivity. cbn [length].
+      set (n := (S (length rel) + 2 - Z.to_nat 1)%nat).
+      replace (S (length rel) + 2)%nat with (S n) by (subst n; lia).
+      change (repeat 0 (S n)) with (B [] (S n)).
+      rewrite set_push by reflexivity. reflexivity. }
+  destruct S1 as (re & rb & R1 & -> & R3 & R4).
+  (* first pass *)
+  assert (HP : P1 (S (length s)) rel ([] ++ root_acc k) = Some acc').
+  { pose proof (P1_spec (S (length s)) rel [] (root_acc k)) as Q. cbn [rev app] in *. apply Q.
+    - lia.
+    - destruct Hk as [-> | ->]; reflexivity.
+    - constructor.
+    - intros _. exact Hrel. }
+  assert (Hskip : skipn (Z.to_nat k) s = rel).
+  { rewrite Hs. destruct Hk as [-> | ->]; reflexivity. }
+  destruct (copy_loop_refine s k (S (length s)) k [] (length s + 2 - Z.to_nat k) rel acc' Hk ltac:(lia)
+              ltac:(unfold zlen; lia) Hskip ltac:(lia) HP) as (m' & C1 & C2 & C3 & _).
+  cbn [app] in C1, C2.
+  assert (Lk : length (root_acc k) = Z.to_nat k) by (destruct Hk as [-> | ->]; reflexivity).
+  rewrite Lk in C1, C2. rewrite Z2Nat.id in C1 by lia.
+  assert (Nz : Forall (fun c => c <> 0) acc').
+  { eapply (P1_forall (fun c => c <> 0)); [| | |exact HP].
+    - cbv beta. discriminate.
+    - rewrite Hs in Hnz. apply Forall_app in Hnz. apply Hnz.
+    - cbn [app]. destruct Hk as [-> | ->]; repeat constructor. discriminate. }
+  unfold zix_normal_opt, zix_normal_full. destruct s as [|c0 s0]; [congruence|].
+  set (s := c0 :: s0) in *.
+  unfold pass1. rewrite R1, R3, R4, C1. unfold pass2.
+  rewrite dotdot_loop_id; [|apply Hnodd|].
+  2:{ assert (Z.to_nat (Z.of_nat (length acc') - k) <= length s)%nat by lia. nia. }
+  destruct m' as [|[|m'']]; [lia|lia|].
+  assert (P34 : pass34 k (Z.of_nat (length acc')) (B acc' (S (S m''))) =
+                Some (tail_rules (Z.of_nat (length acc')) (B acc' (S (S m''))))).
+  { unfold pass34. destruct Hk as [-> | ->]; [reflexivity|].
+    cbn [Z.eqb negb andb]. destruct (is_sep (get (B acc' (S (S m''))) (1 - 1))); [|reflexivity].
+    rewrite B_length. cbn [andb]. rewrite root_scan_id by apply Hnodd. reflexivity. }
+  rewrite P34. rewrite tail_rules_fin; [reflexivity|apply Hnodd|exact Nz].
+Qed.
